@@ -11,6 +11,7 @@ package main
 import (
 	"context"
 	"fmt"
+	"os"
 	"runtime"
 	"sort"
 	"strconv"
@@ -390,7 +391,7 @@ func (w *world) seenGroups() string {
 	return strings.Join(parts, "|")
 }
 
-func (w *world) workers(r *hx.Run) string {
+func (w *world) workers(r *rec) string {
 	names := w.runningNames()
 	type no struct{ n, o int }
 	var l []no
@@ -427,7 +428,7 @@ func (w *world) workers(r *hx.Run) string {
 }
 
 // exec interprets one script op.
-func (w *world) exec(r *hx.Run, op string) string {
+func (w *world) exec(r *rec, op string) string {
 	f := strings.Fields(op)
 	atoi := func(i int) int {
 		if i >= len(f) {
@@ -570,7 +571,7 @@ func (w *world) exec(r *hx.Run, op string) string {
 
 // stressStart races Start against ShutdownAndWait on fresh daemons: after both returned the daemon
 // must not be running and no worker may have been started after ShutdownAndWait returned.
-func stressStart(r *hx.Run, n int) string {
+func stressStart(r *rec, n int) string {
 	hits := 0
 	for i := 0; i < n; i++ {
 		d := daemon.New()
@@ -641,8 +642,9 @@ func (w *world) finishCase() []string {
 	return out
 }
 
-func runCase(r *hx.Run, sub uint64, script []string) {
-	r.Case(sub)
+// runCase executes one script on a fresh daemon and returns everything the parent process needs.
+func runCase(script []string) *caseResult {
+	r := &rec{res: &caseResult{Script: script, Counts: map[string]int{}}}
 	seq := len(script) > 0 && script[0] == "mode seq"
 	w := newWorld(seq)
 	r.Line(map[bool]string{true: "mode seq", false: "mode conc"}[seq], "ok")
@@ -672,16 +674,23 @@ func runCase(r *hx.Run, sub uint64, script []string) {
 	r.Line("check", verdict)
 	r.Count("verdict:" + verdict)
 	classify(r, evs, script)
-	r.Sample(r.CaseLines())
+
+	return r.res
 }
 
 func main() {
+	if len(os.Args) > 1 && os.Args[1] == "--child" {
+		childMain(os.Args[2], os.Args[3])
+
+		return
+	}
 	r := hx.Start()
 	r.MaxSamples = 4
 	r.Rule = "scripts over BackgroundWorker(name,order,kind)/Start/Run/Shutdown/ShutdownAndWait/finish with orders from " +
 		"{-7,-3,-1,0,0,1,2,2,5,9} and worker kinds c(ancel-responsive) s(low) h(old until equal-order peers are cancelled) " +
 		"g(ated) x(exits at once) l(ingers for Run); non-trivial = a shutdown that cancelled live workers of at least two " +
 		"distinct orders or hit a refusal/early-finish/re-registration/forced-window branch; distinct by sha256 of script+event log"
+	var cases []caseSpec
 	if lines := r.ReplayLines(); lines != nil {
 		var script []string
 		for _, l := range lines {
@@ -693,23 +702,22 @@ func main() {
 				script = append(script, l[3:])
 			}
 		}
-		runCase(r, 0, script)
-		r.Finish()
-
-		return
+		cases = append(cases, caseSpec{0, script})
+	} else {
+		for _, c := range corpus {
+			cases = append(cases, caseSpec{0, c})
+		}
+		nSeq, nConc := 2500*r.Scale, 3500*r.Scale
+		for i := 0; i < nSeq; i++ {
+			rng, sub := r.Rng.Fork()
+			cases = append(cases, caseSpec{sub, genSeq(rng)})
+		}
+		for i := 0; i < nConc; i++ {
+			rng, sub := r.Rng.Fork()
+			cases = append(cases, caseSpec{sub, genConc(rng)})
+		}
+		cases = append(cases, caseSpec{0, []string{fmt.Sprintf("stress %d", 1000000*r.Scale)}})
 	}
-	for _, c := range corpus {
-		runCase(r, 0, c)
-	}
-	nSeq, nConc := 2500*r.Scale, 3500*r.Scale
-	for i := 0; i < nSeq; i++ {
-		rng, sub := r.Rng.Fork()
-		runCase(r, sub, genSeq(rng))
-	}
-	for i := 0; i < nConc; i++ {
-		rng, sub := r.Rng.Fork()
-		runCase(r, sub, genConc(rng))
-	}
-	runCase(r, 0, []string{fmt.Sprintf("stress %d", 150000*r.Scale)})
+	runAll(r, cases)
 	r.Finish()
 }
